@@ -1556,6 +1556,12 @@ class Authenticated(BaseClientHandler):
         #
         try:
             async with cmd.ready_and_okay(self.mbox):
+                # FETCH notifications queued by the resync that was just
+                # done on our behalf predate this STORE. Send them now,
+                # sent after our response they would report stale flags.
+                #
+                if not self.pending_expunges():
+                    await self.send_pending_notifications()
                 msg_set = (
                     sorted(cmd.msg_set_as_set) if cmd.msg_set_as_set else []
                 )
